@@ -17,7 +17,9 @@ public:
 
     template<typename T, typename ...Args>
     typename std::enable_if_t<!Runnable::isRunnable<T>::value, void> start(T ptr, Args&&... args) {
-        m_thread = std::thread([&]() {
+        // `ptr` is a parameter of this function: the new thread may start running
+        // after `start` has returned, so it must own a copy of the callable
+        m_thread = std::thread([this, ptr, &args...]() mutable {
             ptr(std::forward<Args>(args)...);
             m_isFinished = true;
         });
